@@ -1322,9 +1322,7 @@ Lemma op_4_inv : op_4 p (next_id p) args = OK (p', idxs, e) -> pool_inv p'.
 Proof.
   start H. unfold op_4 in H. crack H; got.
   - by_store H. apply clear_fmt_good.
-  - by_store_alloc H.
-    match goal with Q : parse ?w ?n = (?a, ?n') |- _ =>
-      pose proof (parse_alloc f w n) as A; rewrite Q in A; exact A end.
+  - by_store H. apply clear_fmt_good.
 Qed.
 
 Lemma op_5_inv : op_5 p (next_id p) args = OK (p', idxs, e) -> pool_inv p'.
